@@ -166,14 +166,18 @@ func (g *gen) writeLoadDerivedVar(b *buffer, n *a.Expr) error {
 	switch n.Operator() {
 	case 0:
 		name := n.Ident().Str(g.tm)
+		// Adding zero to a NULL pointer is undefined behavior in C.
+		b.printf("if (%s%s.data.ptr) {\n", uPrefix, name)
 		b.printf("%s%s%s = %s%s.data.ptr + %s%s.%s;\n",
 			iopPrefix, vPrefix, name, uPrefix, name, uPrefix, name, i1)
+		b.printf("}\n")
 		return nil
 
 	case t.IDDot:
 		if lhs := n.LHS().AsExpr(); (lhs.Operator() == 0) && (lhs.Ident() == t.IDArgs) {
 			name := n.Ident().Str(g.tm)
-			b.printf("if (%s%s) {\n", aPrefix, name)
+			// Adding zero to a NULL pointer is undefined behavior in C.
+			b.printf("if (%s%s && %s%s->data.ptr) {\n", aPrefix, name, aPrefix, name)
 			b.printf("%s%s%s = %s%s->data.ptr + %s%s->%s;\n",
 				iopPrefix, aPrefix, name, aPrefix, name, aPrefix, name, i1)
 			b.printf("}\n")
